@@ -56,6 +56,29 @@ pub fn judge(case: &[u8], acc: &mut Acc) {
     };
     acc.eval(1);
     acc.nontrivial();
+    // formatting must not depend on what was formatted before: a sink that fails half-way, then format again
+    for limit in [0usize, 7, 25] {
+        struct Limited(usize);
+        impl std::fmt::Write for Limited {
+            fn write_str(&mut self, s: &str) -> std::fmt::Result {
+                if s.len() > self.0 {
+                    return Err(std::fmt::Error);
+                }
+                self.0 -= s.len();
+                Ok(())
+            }
+        }
+        use std::fmt::Write as _;
+        let _ = guard(|| write!(Limited(limit), "{}", a));
+        acc.eval(2);
+        match guard(|| a.to_string()) {
+            Ok(again) if again == line => {}
+            other => {
+                acc.violation("formatting-depends-on-history", "v1::Addresses Display after a failed write", format!("{:?}", line), format!("{:?}", other));
+                break;
+            }
+        }
+    }
     let lb = line.as_bytes();
     if lb.len() > 107 {
         acc.violation("line-too-long", "v1::Addresses::to_string", "<= 107 bytes".into(), format!("{} bytes: {}", lb.len(), escape(lb)));
